@@ -40,6 +40,10 @@ class SetupCfgWriter(DependencyWriter):
         with open(self.path, "r", encoding="utf-8") as f:
             original_lines = f.readlines()
 
+        # a last line without newline would be glued to the added requirement
+        if original_lines and not original_lines[-1].endswith("\n"):
+            original_lines[-1] += "\n"
+
         if not (
             new_lines := self.build_new_lines(
                 original_lines, defined_dependencies, dependencies
